@@ -254,12 +254,6 @@ Qed.
 (* ---- configuration record ---- *)
 Definition set_ok (nb : bytes) : Prop := nb <> [] /\ lenN nb <= 65535.
 
-Lemma be_bytes_mod k v : be_bytes k (v mod 256 ^ N.of_nat k) = be_bytes k v.
-Proof.
-  rewrite (N.div_mod v (256 ^ N.of_nat k)) at 2 by (apply N.pow_nonzero; discriminate).
-  rewrite (N.mul_comm (256 ^ N.of_nat k)). symmetry. apply be_bytes_add_high.
-Qed.
-
 Lemma spec_sets_cons nb nbs : spec_sets (nb :: nbs) = be_bytes 2 (lenN nb) ++ nb ++ spec_sets nbs.
 Proof.
   unfold spec_sets. cbn [flat_map]. rewrite <- app_assoc. f_equal.
@@ -591,4 +585,127 @@ Proof.
     rewrite !map_spec_split_clear by assumption. rewrite Cs. reflexivity.
   - rewrite Forall_map. eapply Forall_impl; [|exact Fs]. apply split_set_ok.
   - rewrite Forall_map. eapply Forall_impl; [|exact Fp]. apply split_set_ok.
+Qed.
+
+(* ---- inversion for the NAL unit and the sample reader ---- *)
+Lemma nalu_unmarshal_inv data n : nalu_unmarshal data = Ok n ->
+  exists x, data = x :: ndata n /\ nref n = (x / 32) mod 4 /\ ntype n = x mod 32.
+Proof.
+  destruct data as [|x t]; [discriminate|]. rewrite nalu_unmarshal_cons. intros E. inversion E; subst n.
+  exists x. repeat split.
+Qed.
+
+Lemma nalu_reenc data n : wf_bytes data -> nalu_unmarshal data = Ok n -> nalu_marshal n = clear_forbidden data.
+Proof.
+  intros W E. destruct data as [|x t]; [discriminate|]. rewrite nalu_unmarshal_cons in E. inversion E; subst n.
+  inversion W; subst. unfold wf_byte in *. rewrite nalu_marshal_eq. cbn [nref ntype ndata clear_forbidden].
+  rewrite reenc_byte by assumption. reflexivity.
+Qed.
+
+Lemma read_len_inv k lb : size_ok k -> wf_bytes lb -> lenN lb = k ->
+  read_len k lb 0 0 < 256 ^ k /\ be_bytes (N.to_nat k) (read_len k lb 0 0) = lb.
+Proof.
+  intros Hk W Hl. rewrite lenN_length in Hl.
+  destruct Hk as [->|[->|[->| ->]]].
+  - destruct lb as [|a [|? ?]]; try (cbn [length] in Hl; lia).
+    inversion W; subst. unfold wf_byte in *. cbv [read_len]. change (sh_amt 1 0) with 0.
+    rewrite shl64_small by (change (2 ^ 0) with 1; lia). change (2 ^ 0) with 1. rewrite N.mul_1_r, N.lor_0_l.
+    change (256 ^ 1) with 256. split; [assumption|]. apply be_bytes_1. assumption.
+  - destruct lb as [|a [|b [|? ?]]]; try (cbn [length] in Hl; lia).
+    inversion W as [|? ? Ha W1]; subst. inversion W1 as [|? ? Hb W2]; subst. unfold wf_byte in *. cbv [read_len].
+    change (sh_amt 2 0) with 8. change (sh_amt 2 (0 + 1)) with 0.
+    rewrite !shl64_small by (try lia; change (2 ^ 8) with 256; change (2 ^ 0) with 1; lia).
+    change (2 ^ 8) with 256; change (2 ^ 0) with 1. rewrite N.lor_0_l, N.mul_1_r.
+    rewrite (lor_disjoint_add _ _ 8) by (change (2 ^ 8) with 256; lia).
+    change (256 ^ 2) with 65536. split; [lia|]. rewrite be_bytes_2. f_equal; [lia|]. f_equal. lia.
+  - destruct lb as [|a [|b [|c [|? ?]]]]; try (cbn [length] in Hl; lia).
+    inversion W as [|? ? Ha W1]; subst. inversion W1 as [|? ? Hb W2]; subst. inversion W2 as [|? ? Hc W3]; subst.
+    unfold wf_byte in *. cbv [read_len].
+    change (sh_amt 3 0) with 16. change (sh_amt 3 (0 + 1)) with 8. change (sh_amt 3 (0 + 1 + 1)) with 0.
+    rewrite !shl64_small by (try lia; change (2 ^ 16) with 65536; change (2 ^ 8) with 256; change (2 ^ 0) with 1; lia).
+    change (2 ^ 16) with 65536; change (2 ^ 8) with 256; change (2 ^ 0) with 1. rewrite N.lor_0_l, N.mul_1_r.
+    rewrite (lor_disjoint_add (a * 65536) _ 16) by (change (2 ^ 16) with 65536; lia).
+    rewrite (lor_disjoint_add _ _ 8) by (change (2 ^ 8) with 256; lia).
+    change (256 ^ 3) with 16777216. split; [lia|].
+    change (N.to_nat 3) with 3%nat.
+    replace (a * 65536 + b * 256 + c) with (a * 256 ^ N.of_nat 2 + (b * 256 ^ N.of_nat 1 + (c * 256 ^ N.of_nat 0 + 0)))
+      by (change (256 ^ N.of_nat 2) with 65536; change (256 ^ N.of_nat 1) with 256; change (256 ^ N.of_nat 0) with 1; lia).
+    repeat (rewrite be_bytes_cons; [f_equal|assumption|
+      change (256 ^ N.of_nat 2) with 65536; change (256 ^ N.of_nat 1) with 256; change (256 ^ N.of_nat 0) with 1; lia]).
+  - destruct lb as [|a [|b [|c [|d [|? ?]]]]]; try (cbn [length] in Hl; lia).
+    inversion W as [|? ? Ha W1]; subst. inversion W1 as [|? ? Hb W2]; subst. inversion W2 as [|? ? Hc W3]; subst.
+    inversion W3 as [|? ? Hd W4]; subst. unfold wf_byte in *. cbv [read_len].
+    change (sh_amt 4 0) with 24. change (sh_amt 4 (0 + 1)) with 16. change (sh_amt 4 (0 + 1 + 1)) with 8. change (sh_amt 4 (0 + 1 + 1 + 1)) with 0.
+    rewrite !shl64_small by (try lia; change (2 ^ 24) with 16777216; change (2 ^ 16) with 65536; change (2 ^ 8) with 256; change (2 ^ 0) with 1; lia).
+    change (2 ^ 24) with 16777216; change (2 ^ 16) with 65536; change (2 ^ 8) with 256; change (2 ^ 0) with 1.
+    rewrite N.lor_0_l, N.mul_1_r.
+    rewrite (lor_disjoint_add (a * 16777216) _ 24) by (change (2 ^ 24) with 16777216; lia).
+    rewrite (lor_disjoint_add (a * 16777216 + b * 65536) _ 16) by (change (2 ^ 16) with 65536; lia).
+    rewrite (lor_disjoint_add _ _ 8) by (change (2 ^ 8) with 256; lia).
+    change (256 ^ 4) with 4294967296. split; [lia|].
+    change (N.to_nat 4) with 4%nat.
+    replace (a * 16777216 + b * 65536 + c * 256 + d)
+      with (a * 256 ^ N.of_nat 3 + (b * 256 ^ N.of_nat 2 + (c * 256 ^ N.of_nat 1 + (d * 256 ^ N.of_nat 0 + 0))))
+      by (change (256 ^ N.of_nat 3) with 16777216; change (256 ^ N.of_nat 2) with 65536; change (256 ^ N.of_nat 1) with 256; change (256 ^ N.of_nat 0) with 1; lia).
+    repeat (rewrite be_bytes_cons; [f_equal|assumption|
+      change (256 ^ N.of_nat 3) with 16777216; change (256 ^ N.of_nat 2) with 65536; change (256 ^ N.of_nat 1) with 256; change (256 ^ N.of_nat 0) with 1; lia]).
+Qed.
+
+Lemma sample_loop_inv l fuel : l < 4 -> forall b acc ns, wf_bytes b ->
+  sample_loop fuel (l + 1) b acc = (ns, Ok tt) ->
+  exists nbs, b = spec_sample l nbs /\ Forall (unit_ok (l + 1)) nbs /\ ns = rev acc ++ map split_nalu nbs.
+Proof.
+  intros Hl. pose proof (size_ok_of_lsm1 l Hl) as Hk.
+  induction fuel as [|fuel IH]; intros b acc ns W H; destruct b as [|x t]; cbn [sample_loop] in H.
+  - inversion H; subst. exists []. repeat split; [constructor|rewrite app_nil_r; reflexivity].
+  - discriminate.
+  - inversion H; subst. exists []. repeat split; [constructor|rewrite app_nil_r; reflexivity].
+  - destruct (len_ltN (x :: t) (l + 1)) eqn:L1; [discriminate|].
+    destruct (splitN (x :: t) (l + 1)) as [[lb b1]|] eqn:S1; [|discriminate].
+    destruct (splitN_some _ _ _ _ S1) as [E1 Hlb].
+    destruct (len_ltN b1 _) eqn:L2; [discriminate|].
+    destruct (splitN b1 _) as [[nb b2]|] eqn:S2; [|discriminate].
+    destruct (splitN_some _ _ _ _ S2) as [E2 Hnb].
+    destruct (nalu_unmarshal nb) as [n|e|s] eqn:U; try discriminate.
+    assert (Hne : nb <> []) by (intros ->; cbn in U; discriminate).
+    rewrite (nalu_unmarshal_split nb Hne) in U. inversion U; subst n. clear U.
+    rewrite E1 in W. apply Forall_app in W. destruct W as [Wlb Wb1].
+    rewrite E2 in Wb1. apply Forall_app in Wb1. destruct Wb1 as [Wnb Wb2].
+    destruct (read_len_inv (l + 1) lb Hk Wlb Hlb) as [Hlt Ebe].
+    destruct (IH b2 (split_nalu nb :: acc) ns Wb2 H) as (nbs & Eb & Fn & En).
+    exists (nb :: nbs). split; [|split].
+    + rewrite spec_sample_cons, pack_len by (rewrite ?Hnb; assumption).
+      rewrite Hnb, Ebe, <- Eb, <- E2. exact E1.
+    + constructor; [split; [exact Hne|rewrite Hnb; exact Hlt]|exact Fn].
+    + rewrite En. cbn [rev map]. rewrite <- app_assoc. reflexivity.
+Qed.
+
+Lemma map_spec_split_clear_ne nbs : Forall (fun nb => nb <> []) nbs -> Forall wf_bytes nbs ->
+  map spec_nalu_bytes (map split_nalu nbs) = map clear_forbidden nbs.
+Proof.
+  induction 1 as [|nb nbs Hne Hrest IH]; intros W; [reflexivity|].
+  inversion W; subst. cbn [map]. rewrite IH by assumption. rewrite spec_split_clear by assumption. reflexivity.
+Qed.
+
+Lemma wf_spec_sample l nbs : l < 4 -> Forall (unit_ok (l + 1)) nbs -> wf_bytes (spec_sample l nbs) -> Forall wf_bytes nbs.
+Proof.
+  intros Hl. induction 1 as [|nb nbs [Hne Hlen] Hrest IH]; intros W; [constructor|].
+  rewrite spec_sample_cons in W. apply Forall_app in W. destruct W as [_ W].
+  apply Forall_app in W. destruct W as [W1 W2]. constructor; [exact W1|exact (IH W2)].
+Qed.
+
+Lemma sample_reenc_canonicalises l data ns : l < 4 -> wf_bytes data ->
+  sample_unmarshal l [] data = (ns, Ok tt) ->
+  exists nbs, data = spec_sample l nbs /\ Forall (unit_ok (l + 1)) nbs /\ ns = map split_nalu nbs /\
+              sample_marshal l ns = spec_sample l (map clear_forbidden nbs).
+Proof.
+  intros Hl W H. unfold sample_unmarshal in H. replace (u8 l) with l in H by (unfold u8; lia).
+  destruct (sample_loop_inv l _ Hl _ _ _ W H) as (nbs & E & F & En). cbn [rev app] in En.
+  exists nbs. repeat split; try assumption. subst ns data.
+  rewrite sample_marshal_spec; [|exact Hl|].
+  - rewrite map_spec_split_clear_ne; [reflexivity| |exact (wf_spec_sample l nbs Hl F W)].
+    eapply Forall_impl; [|exact F]. intros nb [H1 _]. exact H1.
+  - rewrite Forall_map. eapply Forall_impl; [|exact F]. intros nb [Hne Hlen].
+    split; [apply split_ok|]. destruct nb as [|y t]; [congruence|]. cbn [split_nalu ndata].
+    rewrite lenN_cons in Hlen. exact Hlen.
 Qed.
